@@ -34,7 +34,8 @@ SPEC = {
 }
 
 DESCS = ['STARBUCKS #123', 'AMAZON, INC', 'He said "hi"', 'Café Ünïcode 東京', '  padded  ', 'line\nbreak', 'semi;colon|pipe\ttab', 'x',
-         '</script>', '=SUM(A1)', "O'Reilly", 'UBER *EATS 8005928996 CA', '{curly} {0}', 'a,b;c|d', '"quoted"', 'tab\there', '-', '0', 'nan']
+         '</script>', '=SUM(A1)', "O'Reilly", 'UBER *EATS 8005928996 CA', '{curly} {0}', 'a,b;c|d', '"quoted"', 'tab\there', '-', '0', 'nan',
+         'WIDGET WORLD\n\nREF 998877', 'blank\n  \ninside', 'ends with newline\n']
 FIELD_VALS = ['', ' v1 ', 'WA', 'a b', 'ACH', 'x,y', '"q"', 'Ünï', '{z}', '0', 'for {memo} order', '{type}', 'see {merchant}', '{{memo}}', '{']
 DATE_FORMATS = ['%m/%d/%Y', '%Y-%m-%d', '%d.%m.%Y', '%d %b %y', '%b %d, %Y', '%Y%m%d', '%m/%d/%y']
 
